@@ -1,7 +1,7 @@
 ------------------------------ MODULE HashIOGen ------------------------------
 (* G mode for C12: behaviours of hashing writers/readers and verifier scenarios *)
 EXTENDS HashIO, GenLib
-CONSTANTS Chunkings, Lens
+CONSTANTS Chunkings, Lens, LifeLen
 AlgSeqs == UNION {{s \in [1..n -> Algs] : \A i, j \in 1..n : s[i] = s[j] => i = j} : n \in 1..4}
 Sizes == {0, 1, 2, 63, 64, 65}
 AllChunkings == UNION {[1..n -> Sizes] : n \in 1..3}
@@ -28,5 +28,11 @@ St(a, src, r) == [alg |-> a, source |-> src, recorded |-> r, len |-> 64, chunks 
 VerSeqs == {[k |-> "verifier_seq", steps |-> <<St(a, src, "equal"), St(a, src, "unequal"), St(a, src, "equal"), St(a, src, "trunc_even"), St(a, src, "equal")>>] :
                a \in {"sha256", "sha512"}, src \in {"best", "hasher"}}
            \cup {[k |-> "verifier_seq", steps |-> <<St("md5", "hasher", "unequal"), St("md5", "hasher", "equal"), St("sha1", "hasher", "unequal"), St("sha1", "hasher", "equal")>>]}
-ASSUME Emit(SetToSeq(HWok \cup HRok \cup Ver) \o SetToSeq(VerSeqs))
+\* one hasher, every sequence of up to LifeLen operations: write 1 / 63 / 65 / 129 bytes, Sum through the pointer,
+\* entry built from the hasher by value - the hasher is used again after each
+LifeOps == {[op |-> "w", n |-> n] : n \in {1, 63, 65, 129}} \cup {[op |-> "s", n |-> 0], [op |-> "e", n |-> 0]}
+LifeSeqs == UNION {[1..m -> LifeOps] : m \in 2..LifeLen}
+Life == {[k |-> "hasher_life", alg |-> a, ops |-> o] : a \in Algs,
+            o \in {q \in LifeSeqs : \E i \in 1..Len(q) : q[i].op # "w"}}
+ASSUME Emit(SetToSeq(HWok \cup HRok \cup Ver) \o SetToSeq(VerSeqs) \o SetToSeq(Life))
 =============================================================================
